@@ -1,5 +1,6 @@
 import MlModel.Lemmas.TreeReserved
 import MlModel.Lemmas.TreeNdDeep
+import MlModel.Lemmas.TreeTup
 /-!
 # C18 — tree views obey get/set laws and never mutate the viewed data
 
@@ -532,6 +533,106 @@ theorem C18_nd_inplace_get_set_frame (strict : Bool) {h : Heap} {t v b off : Nat
     rw [bufOf_of_get h1]
     exact slice_splice_disjoint _ _ (by omega) (by omega)
 
+/-! ### C18_tuple_key — a tuple of ints as a path element (numpy multi-dimensional index; work package C18D)
+
+`Key('a', (i, j))`: on an ndarray `a[(i, j)]` is `a[i, j]`, ONE indexing step resolving several axes.  `Model/Tree.lean`
+models it as `XKey.tup` on top of the unchanged key types (`getVX`, `setPathX`, `tupWin`).  Not modelled (the harness
+keeps it out of the correspondence, oracle only): STORING a tuple as a dict key. -/
+
+/-- **On tuple-free paths the model with tuple keys is the model every other theorem of this file is about.** -/
+theorem C18_tuple_key_model (strict inPlace : Bool) (h : Heap) (t v : Ref) (p : Path) :
+    setPathX strict inPlace h t (p.map XKey.k) v = setPath strict inPlace h t p v ∧
+    getVX h t (p.map XKey.k) = getV h t p :=
+  ⟨setPathX_plain strict inPlace v p h t, getVX_plain h p t⟩
+
+/-- **`a[(i, j, …)]` addresses the element / sub-block that the chain `a[i][j]…` addresses** — same offset, same
+shape, and it is rejected (numpy: `IndexError`) exactly when some index of the chain is. -/
+theorem C18_tuple_key_window (shape : List Nat) (is : List Int) :
+    tupWin shape is = ndWin shape (is.map PKey.int) := tupWin_eq_ndWin is shape
+
+/-- **A read through a tuple key is the read through the chain of ints.** -/
+theorem C18_tuple_key_read {h : Heap} {t b off : Nat} {shape : List Nat} {is : List Int} {o : Nat} {s : List Nat}
+    (hn : h[t]? = some (.nd b off shape)) (his : is ≠ []) (hw : tupWin shape is = some (o, s)) :
+    getVX h t [.tup is] = getV h t (is.map PKey.int) := by
+  have hw' := hw
+  rw [tupWin_eq_ndWin] at hw'
+  cases is with
+  | nil => exact absurd rfl his
+  | cons i is' =>
+    cases shape with
+    | nil => simp [tupWin] at hw
+    | cons n inner =>
+      have hv : getV h t ((i :: is').map PKey.int) = ndWalk h b off (n :: inner) ((i :: is').map PKey.int) := by
+        rw [List.map_cons, getV.eq_4 _ _ _ _ (by intro e; cases e) (by intro id v e; cases e), hn]
+      rw [hv, ndWalk_of_ndWin h b _ _ off o s hw']
+      simp only [getVX, hn, ndWalkX, hw]
+      cases s with
+      | nil => simp [scalarWalkX]
+      | cons m s' => simp
+
+/-- **A copying set through a tuple key returns the array the set through the chain of ints returns**: a new array
+object (cell `h.size + 1`) on a new buffer (cell `h.size`), both cells the same in the two resulting heaps — the elements
+of the original with the window overwritten by the broadcast value; the heap is only extended.  (The two heaps differ
+in garbage: the chain copies a view per level, the tuple key resolves the axes at once.) -/
+theorem C18_tuple_key_set_copy (strict : Bool) {h : Heap} {t v b off : Nat} {shape : List Nat} {is : List Int}
+    {o : Nat} {s : List Nat} {ys : List Int} (w : NdWF h) (hn : h[t]? = some (.nd b off shape)) (his : is ≠ [])
+    (hw : tupWin shape is = some (o, s)) (hco : coerce h v s = some ys) :
+    (setPathX strict false h t [.tup is] v).2 = .ok (h.size + 1) ∧
+    (setPath strict false h t (is.map PKey.int) v).2 = .ok (h.size + 1) ∧
+    (setPathX strict false h t [.tup is] v).1[h.size + 1]? = (setPath strict false h t (is.map PKey.int) v).1[h.size + 1]? ∧
+    (setPathX strict false h t [.tup is] v).1[h.size]? = (setPath strict false h t (is.map PKey.int) v).1[h.size]? ∧
+    (setPathX strict false h t [.tup is] v).1[h.size]? = some (.buf (splice (ndElems h b off shape) o ys)) ∧
+    Extends h (setPathX strict false h t [.tup is] v).1 := by
+  have hw' := hw
+  rw [tupWin_eq_ndWin] at hw'
+  have hks : is.map PKey.int ≠ [] := by cases is with | nil => exact absurd rfl his | cons _ _ => simp
+  obtain ⟨c1, c2, c3, _, _, _⟩ := C18_nd_copy_exact strict w hn hks hw' hco
+  rw [copyAndSet_path] at c1 c2 c3
+  cases shape with
+  | nil => cases is with | nil => exact absurd rfl his | cons _ _ => simp [tupWin] at hw
+  | cons n inner =>
+    rw [setPathX_tup_copy strict hn hw (coerce_stable w hco)]
+    have hsz : (ndCopy h b off (n :: inner)).1.size = h.size + 2 := by rw [ndCopy_fst]; simp
+    have hbuf : (ndCopy h b off (n :: inner)).1[h.size]? = some (.buf (ndElems h b off (n :: inner))) := by
+      rw [ndCopy_fst, push_get_lt _ _ (by simp)]; exact push_get_size _ _
+    have hnd : (ndCopy h b off (n :: inner)).1[h.size + 1]? = some (.nd h.size 0 (n :: inner)) := by
+      rw [ndCopy_fst]
+      have := push_get_size (h.push (.buf (ndElems h b off (n :: inner)))) (.nd h.size 0 (n :: inner))
+      simpa using this
+    have hB : (ndWrite (ndItem (ndCopy h b off (n :: inner)).1 h.size o s).1 h.size o ys)[h.size]? =
+        some (.buf (splice (ndElems h b off (n :: inner)) o ys)) :=
+      ndWrite_get_eq (by rw [ndItem_get_lt _ _ _ _ (by omega)]; exact hbuf) _ _
+    refine ⟨rfl, c1, ?_, ?_, hB, ?_⟩
+    · rw [c2]; simp only
+      rw [ndWrite_get_ne' _ _ _ _ (by omega), ndItem_get_lt _ _ _ _ (by omega), hnd]
+    · rw [c3]; exact hB
+    · exact Extends.ndWrite_fresh ((ndCopy_extends h b off (n :: inner)).trans (ndItem_extends _ _ _ s)) _ _ (Nat.le_refl _)
+
+/-- **… and so does the in-place set**: the same array object, the caller's buffer with exactly the addressed window
+overwritten, every other pre-existing cell unchanged — as the set through the chain of ints. -/
+theorem C18_tuple_key_set_inplace (strict : Bool) {h : Heap} {t v b off : Nat} {shape : List Nat} {is : List Int}
+    {xs : List Int} {o : Nat} {s : List Nat} {ys : List Int} (w : NdWF h) (hn : h[t]? = some (.nd b off shape))
+    (hb : h[b]? = some (.buf xs)) (his : is ≠ []) (hw : tupWin shape is = some (o, s))
+    (hco : coerce h v s = some ys) :
+    (setPathX strict true h t [.tup is] v).2 = .ok t ∧ (setPath strict true h t (is.map PKey.int) v).2 = .ok t ∧
+    (setPathX strict true h t [.tup is] v).1[b]? = some (.buf (splice xs (off + o) ys)) ∧
+    (setPath strict true h t (is.map PKey.int) v).1[b]? = some (.buf (splice xs (off + o) ys)) ∧
+    ∀ c, c < h.size → c ≠ b → (setPathX strict true h t [.tup is] v).1[c]? = h[c]? ∧
+      (setPath strict true h t (is.map PKey.int) v).1[c]? = h[c]? := by
+  have hw' := hw
+  rw [tupWin_eq_ndWin] at hw'
+  have hks : is.map PKey.int ≠ [] := by cases is with | nil => exact absurd rfl his | cons _ _ => simp
+  obtain ⟨c1, c2, c3, _, _⟩ := C18_nd_inplace_exact strict w hn hb hks hw' hco
+  have hblt := lt_size_of_get hb
+  cases shape with
+  | nil => cases is with | nil => exact absurd rfl his | cons _ _ => simp [tupWin] at hw
+  | cons n inner =>
+    rw [setPathX_tup_inplace strict hn hw (coerce_stable w hco)]
+    refine ⟨rfl, c1, ?_, c2, fun c hc hne => ⟨?_, c3 c hc hne⟩⟩
+    · exact ndWrite_get_eq (by rw [ndItem_get_lt _ _ _ _ hblt]; exact hb) _ _
+    · simp only
+      rw [ndWrite_get_ne' _ _ _ _ hne, ndItem_get_lt _ _ _ _ hc]
+
 /-- **`set(..., in_place=True)` of one item of an ndarray writes exactly the addressed item**: the call
 succeeds and returns the same array object; the buffer afterwards is the buffer before with the window of
 item `j` (`prod inner` elements from `off + j * prod inner`) overwritten by the value; every other
@@ -891,6 +992,14 @@ example : (copyAndSet false hB 1 (.path [.idx 1, .int 2]) 4).1[8]? = some (.buf 
   decide
 example : (setPath false true hB 1 [.idx 0] 5).1[0]? = some (.buf [6, 7, 8, 9, 10, 11, 6, 7, 8, 9, 10, 11]) := by decide
 example : getV (copyAndSet false hB 1 (.path [.idx 1, .int 2]) 4).1 9 [.idx 1, .int 2] = .ok (.view 8 10 [2], true) := rfl
+
+/-- tuple keys on `B`: `B[(1, 2)] = [7, 8]` and the read `B[(1, 2, -1)]`; an index out of range and too many indices -/
+example : tupWin [2, 3, 2] [1, 2] = some (10, [2]) ∧ tupWin [2, 3, 2] [1, 3] = none ∧ tupWin [2, 3, 2] [1, 2, 0, 0] = none := by
+  decide
+example : (setPathX false false hB 1 [.tup [1, 2]] 4).1[8]? = some (.buf [0, 1, 2, 3, 4, 5, 6, 7, 8, 9, 7, 8]) := by decide
+example : getVX hB 1 [.tup [1, 2, -1]] = .ok (.scalar 11, true) := rfl
+example : getVX hB 1 [.tup [1], .k (.idx 2)] = .ok (.view 0 10 [2], true) := rfl
+example : (setPathX false false hB 1 [.tup [1, 3]] 4).2 = .error .key := rfl
 
 /-- `[{'a': 1, 'b': 2}, 1]` at cell 3 (the leaf `1` is shared), a value `9` at cell 4, a tuple at cell 5. -/
 private def h0 : Heap :=
